@@ -448,71 +448,71 @@ async fn payment_lifecycle<B, N, P, S>(
                 attempt_id.attempt_id,
                 attempt_time_seconds, "Payment is pending, awaiting payment."
             );
-            match params
-                .payment_provider
-                .wait_payment(*trampoline.invoice.payment_hash())
-                .await
-            {
-                Ok(maybe_preimage) => {
-                    if let Some(preimage) = maybe_preimage {
-                        trace!("pending payment resolved with preimage");
-                        resolve(
-                            &payments,
-                            &trampoline,
-                            HtlcAcceptedResponse::resolve(preimage.clone()),
-                        )
-                        .await;
-                        match params
-                            .store
-                            .mark_succeeded(&trampoline, &attempt_id, preimage)
-                            .await
-                        {
-                            Ok(_) => {}
-                            Err(e) => {
-                                error!("Failed to mark payment as succeeded: {:?}", e);
-                            }
-                        }
-                        return;
+            // The payment is pending, so the htlcs can be neither failed nor
+            // paid again before its fate is known. If the node cannot be
+            // asked right now, keep the htlcs held and retry.
+            let maybe_preimage = loop {
+                match params
+                    .payment_provider
+                    .wait_payment(*trampoline.invoice.payment_hash())
+                    .await
+                {
+                    Ok(maybe_preimage) => break maybe_preimage,
+                    Err(e) => {
+                        error!("Failed to await pending payment, retrying: {:?}", e);
+                        tokio::time::sleep(RETRY_DELAY).await;
                     }
-
-                    trace!("pending payment resolved without preimage");
-                    match params.store.mark_failed(&trampoline, &attempt_id).await {
-                        Ok(_) => {}
-                        Err(e) => {
-                            error!("Failed to mark payment as failed: {:?}", e);
-                            resolve(
-                                &payments,
-                                &trampoline,
-                                HtlcAcceptedResponse::temporary_node_failure(),
-                            )
-                            .await;
-                            return;
-                        }
-                    }
-                    // Get the time left since this attempt was started. Note
-                    // that this is not really the mpp timeout time remaining,
-                    // but it's the mpp timeout minus the start of the payment
-                    // attempt. This is the best we can do without storing the
-                    // start time of every single htlc when it arrives. This
-                    // check is mainly here to not let restarts reset the mpp
-                    // timeout entirely.
-                    params.mpp_timeout.saturating_sub(
-                        std::time::SystemTime::now()
-                            .duration_since(std::time::UNIX_EPOCH)
-                            .context("duration since unix epoch should always work")
-                            .unwrap()
-                            .saturating_sub(Duration::from_secs(attempt_time_seconds)),
-                    )
                 }
-                Err(e) => {
-                    error!("Failed to await pending payment: {:?}", e);
+            };
+            if let Some(preimage) = maybe_preimage {
+                trace!("pending payment resolved with preimage");
+                resolve(
+                    &payments,
+                    &trampoline,
+                    HtlcAcceptedResponse::resolve(preimage.clone()),
+                )
+                .await;
+                match params
+                    .store
+                    .mark_succeeded(&trampoline, &attempt_id, preimage)
+                    .await
+                {
+                    Ok(_) => {}
+                    Err(e) => {
+                        error!("Failed to mark payment as succeeded: {:?}", e);
+                    }
+                }
+                return;
+            }
 
-                    // TODO: Now what? Apparently we have a pending payment, so
-                    // we shouldn't return here, but there is also nothing else
-                    // possible to do! Should we panic?
-                    todo!("Failed to await pending payment, but cannot resolve yet, because it's pending.");
+            trace!("pending payment resolved without preimage");
+            match params.store.mark_failed(&trampoline, &attempt_id).await {
+                Ok(_) => {}
+                Err(e) => {
+                    error!("Failed to mark payment as failed: {:?}", e);
+                    resolve(
+                        &payments,
+                        &trampoline,
+                        HtlcAcceptedResponse::temporary_node_failure(),
+                    )
+                    .await;
+                    return;
                 }
             }
+            // Get the time left since this attempt was started. Note
+            // that this is not really the mpp timeout time remaining,
+            // but it's the mpp timeout minus the start of the payment
+            // attempt. This is the best we can do without storing the
+            // start time of every single htlc when it arrives. This
+            // check is mainly here to not let restarts reset the mpp
+            // timeout entirely.
+            params.mpp_timeout.saturating_sub(
+                std::time::SystemTime::now()
+                    .duration_since(std::time::UNIX_EPOCH)
+                    .context("duration since unix epoch should always work")
+                    .unwrap()
+                    .saturating_sub(Duration::from_secs(attempt_time_seconds)),
+            )
         }
         crate::store::PaymentState::Succeeded { preimage } => {
             debug!("existing payment already had preimage");
